@@ -33,6 +33,7 @@ HEADER_FIXED = False
 
 K_ARRAY = "header: unterminated array value never terminates"
 K_U64 = "header: integer literal beyond u64 panics"
+K_STACK = "header: array nesting recurses on the native stack; tens of thousands of nested '[' abort the process"
 K_LEXSPAN = "lex: error spans are relative to the text after the %grmtools section (C11) and can split a multi-byte character of the full text"
 
 TIMEOUT_ENV = {"GVH_CASE_TIMEOUT_MS": "2000"}
@@ -60,6 +61,9 @@ def generate(ctx):
               "%grmtools{a: [1, [99999999999999999999], 2]}", "%grmtools{a: [\"x]", "", "%grmtools", "%grmtools{",
               "   %grmtools\x85{a,a,!a,b,b}", "%grmtools{ſ: K}", "%grmtools{a: [,,1 2,]}", "x"] + c12gen.REAL_HEADERS:
         add_h(t, "corpus")
+    # native stack: `[` nested n deep, parsed on an 8 MiB stack (impl only; not sent to the mirror)
+    for n in (50, 2000, 60000):
+        add("HS", "%grmtools{a: " + "[" * n + "]" * n + "}", "corpus")
     for t in c12gen.LEX_CORPUS:
         add("L", t, "corpus")
     for k, t in c12gen.YACC_CORPUS:
@@ -147,7 +151,7 @@ def run(ctx):
     # lex parsers call the section parser with required=false before anything else
     def mline(fixed, which, text):
         return "%d %d %s" % (1 if fixed else 0, 1 if which == "H1" else 0, hx(text))
-    keys = sorted(set((1 if w == "H1" else 0, t) for w, t, _ in cases))
+    keys = sorted(set((1 if w == "H1" else 0, t) for w, t, _ in cases if w != "HS"))
     mo = core.run_lines([mexe], ["0 %d %s" % (r, hx(t)) for r, t in keys])
     mf = core.run_lines([mexe], ["1 %d %s" % (r, hx(t)) for r, t in keys])
     m_orig = dict(zip(keys, mo))
@@ -158,6 +162,10 @@ def run(ctx):
     # those cases is run on the implementation (all of them once HEADER_FIXED)
     budget = ctx.n(48, 400)
     selected, skipped = [], 0
+    NOMIRROR = "-"
+    for w, t, _ in cases:
+        if w == "HS":
+            m_orig[(0, t)] = m_fixed[(0, t)] = NOMIRROR
     pred = [c for c in cases if tied[(1 if c[0] == "H1" else 0, c[1])] == "HANG"]
     keep = set()
     if pred:
@@ -191,9 +199,11 @@ def run(ctx):
         ctx.count(w[0] + "_" + origin)
         cls = out.split(" ")[0] if out else "EMPTY"
         ctx.count(w[0] + "_" + cls)
-        replay = "echo '%s' | GVH_CASE_TIMEOUT_MS=2000 .work/target/release/c12" % line
-        base = {"parser": {"H": "GrmtoolsSectionParser::parse (required=%s)" % (w == "H1"), "Y": "ASTWithValidityInfo::new + YaccGrammar::new_from_ast_with_validity_info, kind " + w[1:], "L": "LRNonStreamingLexerDef::from_str"}[w[0]],
-                "text": t, "case": line, "impl": out[:600], "replay_cmd": replay}
+        sline = line if len(line) < 8000 else line[:120] + "...(hex of the text, %d chars)" % len(line)
+        replay = "echo '%s' | GVH_CASE_TIMEOUT_MS=2000 .work/target/release/c12" % sline
+        base = {"parser": {"H": "GrmtoolsSectionParser::parse (required=%s)%s" % (w == "H1", " on an 8 MiB stack" if w == "HS" else ""), "Y": "ASTWithValidityInfo::new + YaccGrammar::new_from_ast_with_validity_info, kind " + w[1:], "L": "LRNonStreamingLexerDef::from_str"}[w[0]],
+                "text": t if len(t) < 4000 else t[:200] + " ...(%d chars)... " % len(t) + t[-100:],
+                "case": sline, "impl": out[:600], "replay_cmd": replay}
         bad = None
         if cls in ("PANIC", "HANG", "CRASH"):
             bad = cls
@@ -210,7 +220,10 @@ def run(ctx):
         if bad:
             nwitness += 1
             known = None
-            if cls in ("PANIC", "HANG"):
+            if w == "HS":
+                if cls == "CRASH" and "[" * 10000 in t and ("stack" in out or "rc=-6" in out or "rc=-11" in out):
+                    known = K_STACK
+            elif cls in ("PANIC", "HANG"):
                 # every parser starts with the section parser: attribute by the two mirror variants
                 known = classify_header_failure(out, mo_, mf_) if not HEADER_FIXED else None
             elif bad == "BADSPAN" and w == "L" and "RELOK" in out and " BADSPAN err " in out:
@@ -219,7 +232,7 @@ def run(ctx):
             d.update({"violated": "C12: " + bad, "mirror_pinned": mo_[:300], "mirror_repaired": mf_[:300],
                       "authority": "the implementation itself: the property forbids this outcome for every input"})
             ctx.violation(d, known_key=known)
-        if w[0] == "H":
+        if w in ("H0", "H1"):
             # correspondence: class, values, spans, error kinds — the harness appends ` # …` remarks
             # only for span defects, which are reported above
             o = out.split(" # ")[0]
